@@ -44,10 +44,25 @@ fn site_ns(site: &str) -> Option<Ns> {
 }
 
 /// B with controlled overlap with A
+/// a module does not have to contain every kind of element: sometimes all children of one to three kinds are removed
+/// (only kinds whose namespace is shared with other kinds or that nothing refers to, so the module stays consistent)
+fn drop_kinds(m: &mut GenModule, rng: &mut Rng) {
+    if !rng.chance(1, 2) {
+        return;
+    }
+    const DROPPABLE: [&str; 14] = ["COMPU_TAB", "COMPU_VTAB", "COMPU_VTAB_RANGE", "MOD_COMMON", "FRAME", "USER_RIGHTS", "VARIANT_CODING", "TYPEDEF_AXIS", "TYPEDEF_BLOB", "TYPEDEF_MEASUREMENT", "AXIS_PTS", "BLOB", "INSTANCE", "TRANSFORMER"];
+    for _ in 0..1 + rng.below(3) {
+        let tag = DROPPABLE[rng.below(DROPPABLE.len())];
+        m.children.retain(|c| c.iter().find(|t| t.role == Role::Tag).map_or(true, |t| t.text != tag));
+    }
+}
+
 fn make_pair(g: &Grammar, rng: &mut Rng, overlap: u32, per_kind: usize) -> (GenModule, GenModule) {
     let mut a = gen_module(g, rng, "a", per_kind, 40, true);
+    drop_kinds(&mut a, rng);
     a.resolve_refs(rng, 0);
     let mut b = gen_module(g, rng, "b", per_kind, 40, true);
+    drop_kinds(&mut b, rng);
     let a_ids = a.child_ids();
     let a_pool = a.def_pool();
     let mut used_in_b: HashMap<Ns, Vec<String>> = b.def_pool();
